@@ -31,11 +31,12 @@ FRESH_METHODS = {"copy", "assign", "astype", "rename", "reset_index", "set_index
 
 
 class Ownership:
-    def __init__(self, fn, is_borrowed_root, selfname="self"):
+    def __init__(self, fn, is_borrowed_root, selfname="self", views_are_borrowed=True):
         """is_borrowed_root(expr) -> bool: expressions that denote values owned by somebody else
         (a task argument, an operand container)."""
         self.fn = fn
         self.root = is_borrowed_root
+        self.views = views_are_borrowed
         self.defs = flow.Defs(fn)
         self._memo = {}
 
@@ -89,11 +90,15 @@ class Ownership:
             return UNKNOWN
         if isinstance(node, ast.Attribute):
             # a view into the owner (df.index, df.columns, obj._data)
+            if not self.views:
+                return UNKNOWN
             s = self.state(node.value, depth + 1)
             return BORROWED if s == BORROWED else UNKNOWN
         if isinstance(node, ast.Subscript):
             if isinstance(node.value, ast.Attribute) and node.value.attr in ("iloc", "loc", "iat", "at"):
                 return FRESH
+            if not self.views:
+                return FRESH  # selecting from a collection builds a new collection
             s = self.state(node.value, depth + 1)
             # element of a borrowed container is borrowed (dict value / list item)
             return BORROWED if s == BORROWED else UNKNOWN
